@@ -204,6 +204,9 @@ def check(ctx):
     from rules import c03
     c03.rule_mirror(ctx, TT.build(ctx), "R3")
     # start_with(v) reaches every animated property of a generated timeline (C17/G6)
+    # the substituted frame is frame 0 with exactly the given value (C09/R4)
+    from rules import c09
+    c09.rule_override(ctx, ctx.facts, "R2")
     from rules import derive_rules
     derive_rules.rule_blend_wiring(ctx, "R5")
     # ... and the generated update evaluates every property whenever there is a frame, also before the delay (C01/R5)
